@@ -5,7 +5,7 @@ V = os.path.dirname(os.path.dirname(os.path.abspath(__file__)))
 sys.path.insert(0, os.path.join(V, 'tools'))
 from propcfg import PROPS
 from manifest_texts import TEXTS, NOT_APPLICABLE
-KGEN_STMT = (' K-gen, statement level: the Go functions of the policy layer listed in DESIGN.md 11.4 are rewritten statement by statement into Lean do blocks '
+KGEN_STMT = (' K-gen, statement level: the Go functions of the policy layer and of connectionset.go listed in DESIGN.md 11.4 are rewritten statement by statement into Lean do blocks '
              'on every run (Netpol/Gen/Procs.lean, tools/goextract/procs.go) and Netpol/Tie/Procs proves the model functions equal to them; a changed statement order or '
              'switch case breaks that proof obligation before any case is generated. The translator and its atom tables are trusted.')
 props = [json.loads(l) for l in open(os.path.join(V, 'properties.jsonl'))]
